@@ -1,11 +1,11 @@
 #!/bin/sh
 # tools/autoref_all.sh [transform...]: every mechanical rewrite x every quick check; prints only deviations (alarm, analysis error, or a known finding lost/duplicated)
 cd /verif
-for p in C01 C02 C03 C04 C05 C06 C07 C08 C09 C10 C11 C12 C13 C14 C15 C16 C17 C19 C20; do ./check $p --tier quick --no-evidence > /tmp/q_$p.log 2>&1; done
+for p in C01 C02 C03 C04 C05 C06 C07 C08 C09 C10 C11 C12 C13 C14 C15 C16 C17 C18 C19 C20; do ./check $p --tier quick --no-evidence > /tmp/q_$p.log 2>&1; done
 ts="$@"; [ -z "$ts" ] && ts="rename-locals swap-if merge-if split-and ret-temp aug"
 for t in $ts; do
   d=/tmp/auto1_$t; rm -rf $d; mkdir $d; git -C /repo archive HEAD nemoguardrails docs | tar -x -C $d; python3 tools/autorefactor.py $d $t > /dev/null || { echo "$t: transform failed"; continue; }
-  for p in C01 C02 C03 C04 C05 C06 C07 C08 C09 C10 C11 C12 C13 C14 C15 C16 C17 C19 C20; do
+  for p in C01 C02 C03 C04 C05 C06 C07 C08 C09 C10 C11 C12 C13 C14 C15 C16 C17 C18 C19 C20; do
     ./check $p --tier quick --no-evidence --repo $d > /tmp/ar_${t}_$p.log 2>&1; rc=$?
     k1=$(grep -c '^KNOWN-FINDING' /tmp/ar_${t}_$p.log); k0=$(grep -c '^KNOWN-FINDING' /tmp/q_$p.log)
     [ $rc = 0 ] && [ $k1 = $k0 ] || echo "$t $p rc=$rc viol=$(grep -c '^VIOLATION' /tmp/ar_${t}_$p.log) err=$(grep -c 'ANALYSIS-ERROR' /tmp/ar_${t}_$p.log) known=$k1/$k0"
